@@ -72,6 +72,8 @@ TypeCompatible(wf) ==
      /\ inp.t = "map" /\ "id" \in DOMAIN inp.kids
      /\ \A f \in DOMAIN inp.kids : PluginInputType(f) # "unknown"
                                     /\ (inp.kids[f].t \in {"lit", "ref"} => Compat(PluginInputType(f), inp.kids[f].ty))
+                                    \* an optional tag does not exempt a reference from the type check
+                                    /\ (inp.kids[f].t = "opt" /\ inp.kids[f].e.t = "ref" => Compat(PluginInputType(f), inp.kids[f].e.ty))
 PrepareVerdict(wf) == ~Dangling(wf) /\ ~Collision(wf) /\ Acyclic(ExpectedDAG(wf)) /\ TypeCompatible(wf)
 
 \* ---- the order-nondeterministic construction ------------------------------------------------------------------
